@@ -52,6 +52,23 @@ type Ctl struct {
 	// Grace bounds how long a thread may be neither at a gate, nor returned, nor blocked on a mutex ("stuck").
 	Grace time.Duration
 	dead  bool
+	// proxy: gates named in proxyPoints that are reached by goroutines which are not registered threads are
+	// attributed to this thread (an operation that hands its work to goroutines it spawns, e.g. a refresh
+	// running one worker per peer); proxyMatch identifies those workers in a goroutine dump
+	proxy       int
+	proxyPoints map[string]bool
+	proxyMatch  string
+}
+
+// SetProxy: see Ctl.proxy.  id 0 switches it off.
+func (c *Ctl) SetProxy(id int, match string, points ...string) {
+	c.mu.Lock()
+	defer c.mu.Unlock()
+	c.proxy, c.proxyMatch = id, match
+	c.proxyPoints = map[string]bool{}
+	for _, p := range points {
+		c.proxyPoints[p] = true
+	}
 }
 
 func New() *Ctl {
@@ -78,6 +95,11 @@ func (c *Ctl) Gate(point string, info map[string]interface{}) (val interface{}, 
 	g := gid()
 	c.mu.Lock()
 	t := c.byGid[g]
+	if t == nil && c.proxy != 0 && c.proxyPoints[point] {
+		if pt := c.threads[c.proxy]; pt != nil && pt.running {
+			t = pt
+		}
+	}
 	if t == nil || c.dead {
 		c.mu.Unlock()
 		return nil, nil, false
@@ -137,6 +159,10 @@ func (c *Ctl) wait(id int, block bool) Status {
 	reported := t.last.Kind == "gate"
 	last := t.last
 	g := t.gid
+	match := ""
+	if c.proxy == id {
+		match = c.proxyMatch
+	}
 	c.mu.Unlock()
 	if reported || !block {
 		select {
@@ -164,14 +190,14 @@ func (c *Ctl) wait(id int, block bool) Status {
 			return c.note(t, s)
 		default:
 		}
-		if onMutex(g) {
+		if onMutex(g, match) {
 			// settle: it may have been granted the mutex in this very instant
 			select {
 			case s := <-t.notify:
 				return c.note(t, s)
 			case <-time.After(200 * time.Microsecond):
 			}
-			if onMutex(g) {
+			if onMutex(g, match) {
 				return Status{Kind: "blocked"}
 			}
 		}
@@ -187,8 +213,10 @@ var (
 	dumpBuf = make([]byte, 1<<18)
 )
 
-// onMutex reports whether goroutine g is waiting for a sync.Mutex / semaphore.
-func onMutex(g uint64) bool {
+// onMutex reports whether goroutine g is waiting for a sync.Mutex / semaphore -- or, when g waits for workers it
+// spawned (sync.WaitGroup.Wait) and match is set, whether such a worker (a goroutine whose stack mentions match)
+// is waiting for a mutex.
+func onMutex(g uint64, match string) bool {
 	dumpMu.Lock()
 	defer dumpMu.Unlock()
 	var buf []byte
@@ -202,13 +230,6 @@ func onMutex(g uint64) bool {
 	}
 	hdr := []byte("goroutine " + strconv.FormatUint(g, 10) + " [")
 	i := bytes.Index(buf, hdr)
-	for i > 0 && buf[i-1] != '\n' {
-		j := bytes.Index(buf[i+1:], hdr)
-		if j < 0 {
-			return false
-		}
-		i += 1 + j
-	}
 	if i < 0 {
 		return false
 	}
@@ -218,10 +239,32 @@ func onMutex(g uint64) bool {
 		return false
 	}
 	state := string(rest[:k])
+	if lockState(state) {
+		return true
+	}
+	if match == "" || !strings.HasPrefix(state, "sync.WaitGroup.Wait") {
+		return false
+	}
+	for _, blk := range bytes.Split(buf, []byte("\n\n")) {
+		if !bytes.HasPrefix(blk, []byte("goroutine ")) {
+			continue
+		}
+		a := bytes.IndexByte(blk, '[')
+		b := bytes.IndexByte(blk, ']')
+		if a < 0 || b < a {
+			continue
+		}
+		if lockState(string(blk[a+1:b])) && bytes.Contains(blk, []byte(match)) {
+			return true
+		}
+	}
+	return false
+}
+
+func lockState(state string) bool {
 	return strings.HasPrefix(state, "sync.Mutex.Lock") || strings.HasPrefix(state, "semacquire") ||
 		strings.HasPrefix(state, "sync.RWMutex")
 }
-
 func (c *Ctl) note(t *thread, s Status) Status {
 	c.mu.Lock()
 	defer c.mu.Unlock()
